@@ -20,7 +20,12 @@ package unionfind
 //@   trusted
 //@   modifies nothing
 //@   ensures result.parent != nil && result.parent != uf.parent
+// unifiable: whether extending base makes the two argument lists equal (abstract; the postcondition that ties the error
+// result to it is ASSUMED like the rest of this function's postconditions - it says the outcome is a function of the
+// arguments).
+//@ spec func unifiable(xs []ast.BaseTerm, ys []ast.BaseTerm, base UnionFind) bool
 //@ func UnifyTermsExtend(xs, ys, base)
+//@   ensures (err == nil) == unifiable(xs, ys, base)
 //@   opt assumeensures
 //@   opt assumeframe
 //@   opt nosafety
